@@ -7,3 +7,6 @@ import PyCliffordModel.Model.Circuit
 import PyCliffordModel.Model.Diag
 import PyCliffordModel.Model.Parse
 import PyCliffordModel.Model.Poly
+import PyCliffordModel.Spec.Ket
+import PyCliffordModel.Proofs.Algebra
+import PyCliffordModel.Properties.C01
